@@ -44,7 +44,7 @@ PARTIAL = [
 
 T = lambda m, q, v=0, tag=None: ["t", m, q, v, tag]     # noqa: E731
 BAD = lambda k="arg": ["bad", k]                        # noqa: E731
-BAD_KINDS = ["arg", "ret", "func", "unhash_arg", "unhash_ret", "unhash_set"]   # the last three are also unhashable
+BAD_KINDS = ["arg", "ret", "yield", "func", "unhash_arg", "unhash_ret", "unhash_set"]   # the last three are also unhashable
 ALT = "alt_traces"                                      # a second table in the same file
 
 # add(traces: Iterable[CallTrace]): the batch is handed over as a generator / tuple / iterator / list / dict view
@@ -54,8 +54,8 @@ A3 = ["add", 2, [T("m", "a%b", 1), BAD("func"), T("m", "aXXb", 1), T("", "foo", 
                  T("m", "a[b", 1), T("m", "a[b]c", 1), T("m", "a?c", 1), T("m", "aXc", 1), T("m", "a*b", 1),
                  T("m", "a\\b", 1)], None, "iter"]
 # rows of one function that differ in exactly one column each (arg_types / return_type / yield_type, NULL vs text)
-A4 = ["add", 1, [T("m", "foo", 0), T("m", "foo", 8), T("m", "foo", 9), T("m", "foo", 6), T("m", "foo", 7),
-                 T("m", "foo", 10), T("m", "foo", 8)], 2]                                         # two days later
+A4 = ["add", 1, [T("m", "foo", 0), T("m", "foo", 8), BAD("yield"), T("m", "foo", 9), T("m", "foo", 6), BAD("ret"),
+                 T("m", "foo", 7), T("m", "foo", 10), T("m", "foo", 8)], 2]                                         # two days later
 X1 = ["add_fault", 1, [T("m", "my_func", 1), T("m", "foo", 1)], ["interrupt", 9]]
 X2 = ["add_fault", 2, [T("M", "Foo.bar", 1), T("m", "a%b")], ["locked"]]
 X3 = ["add_fault", 0, [T("m", "aXXb"), T("M", "my_func")], ["evil", 1]]
@@ -125,7 +125,10 @@ def random_history(rnd, maxlen=40, nconn=3, tables=None):
             else:
                 ops.append(["add_fault", rnd.randrange(3), specs, ["evil", rnd.randint(0, len(specs))]])
         elif x < 0.53:
-            ops.append(["reopen", rnd.randrange(3)])
+            c = rnd.randrange(3)
+            ops.append(["reopen", c])
+            if c == 0 and (not tables or tables[0] == sm.TABLE):
+                ops.append(["config", 0])
         elif x < 0.83:
             ops.append(["filter", rnd.randrange(3), rnd.choice(["m", "m", "M", ""]), rnd.choice(sm.PREFIXES),
                         rnd.choice(sm.LIMITS)])
@@ -210,6 +213,27 @@ def campaign_tables(rnd, tier):
         for _ in range(40 if tier == "quick" else 500):
             hs.append(random_history(rnd, 30, len(tables), tables))
     return hs
+
+
+def campaign_config():
+    """what make_store() configured, read through its own connection, fresh / after writes / after reopen"""
+    return [[["config", 0], A1, ["config", 0], ["reopen", 0], ["config", 0], A2, ["table"], ["reopen", 0], ["config", 0],
+             ["filter", 0, "m", None, 2000]]]
+
+
+def campaign_many_modules():
+    """more distinct modules than any listing limit: the listing has to be complete"""
+    big = sm.many_modules_batch()
+    probe = big[2050][1]
+    return [[["add", 0, big, None, "gen"], ["modules", 1], ["filter", 2, probe, None, 2000],
+             ["add", 1, [T("zzz_last", "f")]], ["reopen", 0], ["modules", 0]]]
+
+
+def campaign_row_cap():
+    """more than 100000 raw rows in the table: nothing that was committed may go away"""
+    big = sm.row_cap_batch()
+    return [[["add", 0, big, None, "tuple"], ["add", 1, big, -1, "list"], ["table"], ["filter", 2, "m", "my_func", 2000],
+             ["add", 0, [T("m", "foo")]], ["table"], ["modules", 1]]]
 
 
 def campaign_days(tier):
@@ -362,7 +386,7 @@ def _order_from_table(rows, ids):
 
 def _post_history(path, it, pre_batches, tagc):
     """after a campaign: a fresh store on the surviving file must keep working and answer from what is there"""
-    ops = [["add", 0, [T("m", "my_func", 0, tagc), BAD("ret"), T("M", "Foo.bar", 0, tagc)]], ["table"],
+    ops = [["config", 0], ["add", 0, [T("m", "my_func", 0, tagc), BAD("ret"), T("M", "Foo.bar", 0, tagc)]], ["table"],
            ["filter", 1, "m", "my_func", 2000], ["filter", 2, "M", None, 2000], ["filter", 0, "m", "a%b", 2000],
            ["modules", 1], ["reopen", 0], ["filter", 0, "m", None, 2000]]
     rig = sm.Rig(path, 3)
@@ -419,6 +443,42 @@ def one_kill(work, it, dist, idx, mode, k, cache, wide, n_rows, delay):
     pre = [a_rows] + ([b_rows] if 1 in order else [])
     if len(rows) == sum(len([r for r in bb if r]) for bb in pre):     # otherwise the CReach case already fails
         cases.append(_post_history(path, it, pre, "C"))
+    for suffix in ("", "-journal"):
+        if os.path.exists(path + suffix):
+            os.remove(path + suffix)
+    return cases
+
+
+def spill_kill(work, it, dist, idx, grow, with_post=True):
+    """SIGKILL inside a batch of several MB, after SQLite has written part of it into the database file (cache spill)"""
+    path = os.path.join(work, f"spill-{idx}.db")
+    a_specs, b_specs = sm.spill_batches()
+    a_rows, b_rows = sm.batch_rows(a_specs), sm.batch_rows(b_specs)
+    p = _spawn(["spillkill", path, grow])
+    out, err = p.communicate(timeout=300)
+    done_b = "OK B" in out
+    killed = p.returncode == -signal.SIGKILL
+    if "OK A" not in out or (not killed and not done_b):
+        raise RuntimeError(f"spill-kill worker ended rc={p.returncode}: {err[-800:]}")
+    size_a = int(out.split("OK A")[1].split()[0])
+    size_kill = os.path.getsize(path)
+    hot = os.path.exists(path + "-journal")
+    rows, ok = sm.read_table_or_fail(path, timeout=5.0)
+    order, unknown = _order_from_table(rows, {"A": 0, "B": 1})
+    dist["spill_kills"] += 1
+    dist["spill_kills_hot_journal"] += int(hot)
+    dist["spill_kill_file_growth_kb"] = (size_kill - size_a) // 1024
+    a, b = it.batch(a_rows), it.batch(b_rows)
+    what = (f"writer process SIGKILLed inside a batch of {len(b_rows)} rows once the file had grown by {size_kill - size_a} "
+            f"bytes (cache spill; on-disk journal present: {hot}): after reopening, the table has "
+            f"{len(rows)} rows{' (' + str(rows[0][1]) + ')' if rows and rows[0][0] == '?unreadable' else ''}, "
+            f"the committed batch has {len(a_rows)}, the interrupted one {len(b_rows)}; integrity_ok={ok}")
+    cases = [{"kind": "sigkill-spill", "nontrivial": True, "desc": what,
+              "term": f"CReach [] [({a}, 0); ({b}, {0 if done_b else 2})] {common.coq_list(str(i) for i in order)} "
+                      f"{it.rows_term(rows)} {common.coq_bool(ok and unknown == 0)}"}]
+    pre = [a_rows] + ([b_rows] if 1 in order else [])
+    if with_post and ok and len(rows) == sum(len([r for r in bb if r]) for bb in pre):
+        cases.append(_post_history(path, it, pre, "S"))
     for suffix in ("", "-journal"):
         if os.path.exists(path + suffix):
             os.remove(path + suffix)
@@ -549,7 +609,12 @@ def describe_history(pre, steps, tables=None):
         elif op[0] == "modules":
             want = {r[0] for r in ref.rows if r[0]}
             if obs["k"] != "mods" or set(obs["mods"]) != want or len(set(obs["mods"])) != len(obs["mods"]):
-                return i, f"list_modules() returned {obs.get('mods', obs.get('err'))}, modules with rows: {sorted(want)}"
+                got = obs.get("mods", obs.get("err"))
+                if isinstance(got, list) and len(got) + len(want) > 24:
+                    return i, (f"list_modules() returned {len(got)} modules ({len(set(got))} distinct), "
+                               f"{len(want)} modules have rows; missing e.g. {sorted(want - set(got))[:3]}, "
+                               f"unexpected e.g. {sorted(set(got) - want)[:3]}")
+                return i, f"list_modules() returned {got}, modules with rows: {sorted(want)}"
         elif op[0] == "table":
             if list(obs["table"]) != ref.rows or not obs["ok"]:
                 return i, (f"table {t} read through an independent connection has {len(obs['table'])} rows, the batches "
@@ -559,6 +624,12 @@ def describe_history(pre, steps, tables=None):
             if list(obs["table"]) not in (ref.rows, full) or not obs["ok"]:
                 return i, (f"add() interrupted by {op[3]} left {len(obs['table'])} rows; before: {len(ref.rows)}, "
                            f"whole batch would be {len(full)} (integrity_ok={obs['ok']}, error {obs.get('err')})")
+        elif op[0] == "config":
+            if not sm.config_ok(obs):
+                return i, ("the connection built by SQLiteStore.make_store() is configured "
+                           + ", ".join(f"{k}={obs[k]}" for k in sm.CONFIG_KEYS)
+                           + ": atomic commit / durability of a batch needs an on-disk journal (delete|truncate|persist|wal), "
+                             "synchronous != OFF, normal locking and transactional `with conn:`")
         elif obs["k"] == "raised":
             return i, (f"{op[0]}() raised {obs.get('err')}" +
                        ("; the batch's serialisable traces are lost" if op[0] == "add" else ""))
@@ -586,6 +657,8 @@ def summarise_ops(ops):
             out.append(f"list_modules(conn{op[1]})")
         elif op[0] == "reopen":
             out.append(f"reopen(conn{op[1]})")
+        elif op[0] == "config":
+            out.append(f"read PRAGMAs of conn{op[1]}")
     return "; ".join(out)
 
 
@@ -719,6 +792,13 @@ def run(ctx):
     # 4a. stores on different tables of one file
     for ops in campaign_tables(rnd, ctx.tier):
         histories.append(("two-tables", ops))
+    for ops in campaign_config():
+        histories.append(("store-configuration", ops))
+    for ops in campaign_many_modules():
+        histories.append(("many-modules", ops))
+    if not quick:          # 100200 raw rows: about 30 s of execution and evaluation, thorough tier only
+        for ops in campaign_row_cap():
+            histories.append(("row-cap", ops))
     # 4b. the same rows committed on different calendar days
     for ops in campaign_days(ctx.tier):
         histories.append(("calendar-days", ops))
@@ -765,6 +845,9 @@ def run(ctx):
     cases += campaign_mid_reads(ctx.work, ctx.tier, it, dist)
     cases += campaign_kill(ctx.work, ctx.tier, rnd, it, dist)
     cases += campaign_concurrency(ctx.work, ctx.tier, it, dist)
+    # (the file has to grow by more than the 2 MB page cache before pages of the committed index are written over)
+    for i, grow in enumerate([2200000] if quick else [1500000, 2200000, 3500000, 5000000]):
+        cases += spill_kill(ctx.work, it, dist, i, grow, with_post=False)
     t_camp = time.time() - t_camp
 
     t_coq = time.time()
